@@ -405,7 +405,8 @@ def assembly_batch(n, nsteps, cfg, keys, rng, tid0):
             class Q:
                 def put(self_, x):
                     pass
-            mw = mining.MinerWatcher.__new__(mining.MinerWatcher)
+            from harness.node_drv import new_miner_watcher
+            mw = new_miner_watcher(mining)
             mw.network_thread = NT()
             mw.send_queues = [Q()]
             mw.mining_args = {}
@@ -423,6 +424,11 @@ def assembly_batch(n, nsteps, cfg, keys, rng, tid0):
                 found = None
                 n0 = rng.randrange(1 << 20)
                 for nonce in range(n0, n0 + 48):
+                    # a real miner asks again and again on the same head while its clock runs (and must not run into the future limit here)
+                    if nonce > n0 and not (limit_case and last) and off < 25:
+                        tick = rng.choice([0, 0, 1, 2])
+                        clock.t += tick
+                        off += tick
                     mw.handle_request_scrypt_input_message(0, nonce)
                     summary, height, txs = mw.mining_args[0]
                     sh = c.construct_summary_hash(summary, height)
